@@ -3,6 +3,5 @@
 cd "$(dirname "$0")" || exit 2
 . ./env.sh
 mkdir -p .work/gocache evidence replays
-cp /repo/go.sum mc/go.sum 2>/dev/null
 (cd mc && go build -o ../.work/bclmc ./cmd/bclmc) || exit 1
 echo "setup ok"
